@@ -183,8 +183,11 @@ class DebugInfo:
                                 last_child_end,
                                 end_offset)
             else:
-                # there should have been an empty block marker inside.
-                for addr in self.empty_blocks:
+                # nothing inside the block has any code: the marker at
+                # the start of its inside tells the code of the start
+                # statement from the code of the end statement.
+                marked = False
+                for addr in sorted(set(self.empty_blocks)):
                     if start_offset <= addr < end_offset:
                         add_node_record(block.start_stmt,
                                         start_offset,
@@ -192,6 +195,18 @@ class DebugInfo:
                         add_node_record(block.end_stmt,
                                         addr,
                                         end_offset)
+                        marked = True
+
+                if not marked:
+                    # a block with nothing inside to put a marker in
+                    # (SELECT CASE without any CASE): all of its code
+                    # comes from its start statement.
+                    add_node_record(block.start_stmt,
+                                    start_offset,
+                                    end_offset)
+                    add_node_record(block.end_stmt,
+                                    end_offset,
+                                    end_offset)
 
         self.stmts.sort(key=lambda r: r.start_offset)
 
